@@ -159,6 +159,10 @@ def run(repo: Repo, rep: Report, tier: str) -> None:
               f"`{norm(merges[0])}` merges into the caller's live map and lower_identifier consults param_values first: a free name of the callee that equals a parameter of an enclosing call resolves to that parameter",
               inl.loc(merges[0] if merges else replaces[0]))
 
+    rep.rule("C15-R5", "every place in lowering that resolves an identifier by name consults the parameter environment before signal_refs / the symbol table")
+    from .shared import identifier_resolvers
+    identifier_resolvers(repo, rep, "C15-R5")
+
     # ---------------- R3 ---------------------------------------------------------------
     rep.rule("C15-R3", "every id under which a declaration is registered during lowering has a per-instance counter (ir_builder.next_id) "
              "in its backward slice; an id built from the declared name alone is shared by every expansion of the declaration")
